@@ -40,41 +40,63 @@ type Scenario struct {
 	Vars     [][2]string
 	Entities [][2]string
 	NoExpr   bool
+	Order    []int // drawn permutation of the flag groups
 }
 
-// Argv renders the complete argument list.
+// Argv renders the complete argument list; the flag groups appear in the
+// scenario's drawn order (flag order must not matter to the tool).
 func (s *Scenario) Argv(c int) []string {
-	var a []string
+	var groups [][]string
+	add := func(g ...string) { groups = append(groups, g) }
 	if s.A {
-		a = append(a, "-a")
+		add("-a")
 	}
 	if s.M {
-		a = append(a, "-m")
+		add("-m")
 	}
 	if s.N {
-		a = append(a, "-n")
+		add("-n")
 	}
 	if s.R {
-		a = append(a, "-r")
+		add("-r")
 	}
 	if s.U {
-		a = append(a, "-u")
+		add("-u")
 	}
 	if s.T != "" {
-		a = append(a, "-t", s.T)
+		add("-t", s.T)
 	}
-	a = append(a, "-c", fmt.Sprint(c))
+	add("-c", fmt.Sprint(c))
 	for _, kv := range s.NS {
-		a = append(a, "-s", kv[0]+"="+kv[1])
+		add("-s", kv[0]+"="+kv[1])
 	}
 	for _, kv := range s.Vars {
-		a = append(a, "-v", kv[0]+"="+kv[1])
+		add("-v", kv[0]+"="+kv[1])
 	}
 	for _, kv := range s.Entities {
-		a = append(a, "-e", kv[0]+"="+kv[1])
+		add("-e", kv[0]+"="+kv[1])
 	}
 	if !s.NoExpr {
-		a = append(a, "-x", s.Expr)
+		add("-x", s.Expr)
+	}
+	// apply the drawn order (a list of sort keys; missing keys keep position)
+	idx := make([]int, len(groups))
+	for i := range idx {
+		idx[i] = i
+	}
+	sort.SliceStable(idx, func(a, b int) bool {
+		ka, kb := idx[a]*1000, idx[b]*1000
+		if idx[a] < len(s.Order) {
+			ka = s.Order[idx[a]]
+		}
+		if idx[b] < len(s.Order) {
+			kb = s.Order[idx[b]]
+		}
+		return ka < kb
+	})
+	var a []string
+	for _, i := range idx {
+		a = append(a, groups[i]...)
 	}
 	a = append(a, s.Args...)
 	return a
@@ -215,6 +237,17 @@ func Gen(t *simkit.Tape, sched bool) *Scenario {
 		}
 		s.Tree = append(s.Tree, f)
 	}
+	if t.Bool(1, 14) {
+		// one large, regular file (size swarm: output blocks beyond 64 KiB)
+		n := 700 + t.Draw(200)
+		var b strings.Builder
+		b.WriteString("<big>")
+		for i := 0; i < n; i++ {
+			fmt.Fprintf(&b, "<row id=\"%d\"><!--c%d-->value number %d, padded so that the block of this one file is well beyond 64 KiB</row>", i, i, i)
+		}
+		b.WriteString("</big>")
+		s.Tree = append(s.Tree, FileSpec{Rel: fmt.Sprintf("f%d-big.xml", nfiles), Kind: "xml", Content: []byte(b.String()), Fault: "large"})
+	}
 	// arguments: files individually, or directories
 	if len(dirs) > 1 && t.Bool(1, 2) {
 		s.R = t.Bool(3, 4)
@@ -260,6 +293,11 @@ func Gen(t *simkit.Tape, sched bool) *Scenario {
 	if sched {
 		s.C = []int{2, 3, 4, 8}[t.Draw(4)]
 	}
+	if t.Bool(1, 2) {
+		for i := 0; i < 16; i++ {
+			s.Order = append(s.Order, t.Draw(1000))
+		}
+	}
 	return s
 }
 
@@ -283,13 +321,16 @@ type SimRun struct {
 }
 
 // RunSim executes the instrumented CLI once (one process per run).
+// LightDiv: library yields park once in LightDiv (0: never; reference runs).
+var LightDiv = 0
+
 func RunSim(work, dir string, argv []string, stdin []byte, words []uint32, strategy, depth int) (*SimRun, error) {
 	bin := os.Getenv("VERIF_CLI_BIN")
 	if bin == "" {
 		return nil, fmt.Errorf("VERIF_CLI_BIN not set")
 	}
 	sc := map[string]any{"args": argv, "stdout": filepath.Join(work, "stdout"), "stderr": filepath.Join(work, "stderr"), "result": filepath.Join(work, "result.json"),
-		"words": words, "strategy": strategy, "depth": depth, "est_steps": 400, "max_steps": 300000, "dir": dir}
+		"words": words, "strategy": strategy, "depth": depth, "est_steps": 400, "max_steps": 3000000, "dir": dir, "light_div": lightDivFor(words)}
 	if stdin != nil {
 		p := filepath.Join(work, "stdin")
 		if err := os.WriteFile(p, stdin, 0o644); err != nil {
@@ -319,6 +360,12 @@ func RunSim(work, dir string, argv []string, stdin []byte, words []uint32, strat
 	}
 	return run, nil
 }
+
+// Only the CLI's own file is yield-instrumented in the CLI build (library code
+// runs atomically within a step there; its interleavings belong to scheduler
+// L, which also runs concurrent parsing). The fine-grained-yield support of
+// scheduler P stays switched off.
+func lightDivFor(words []uint32) int { return 0 }
 
 func tailStr(s string, n int) string {
 	if len(s) > n {
